@@ -10,11 +10,12 @@ Model of /repo/util/set/closure.go (Mode M: hand mirror), core Lean only.
                                   `onStack` bit set AS TARJAN PASSES IT; nothing at all below two nodes)
   closure(component, onStack)  → `closureCb` (`simpleClosure` when the component has no intersection node)
   slowClosure                  → `slowLoop` (`for { … if !dirty break }` with fuel `slowFuel`; running out of fuel
-                                  sets `timeout`, which no theorem's hypothesis allows and the driver reports)
+                                  sets `timeout` — proved impossible for systems the API can build,
+                                  `C25_closure_terminates`; the driver would report it)
   c.err                        → `St.err` (indices of the offending complement nodes, in append order)
   c.intern, c.buf              → identity: values, not storage, are modelled.  The model is the algorithm with
                                   value semantics (what the Go code does for `NewClosure(0)`, where every `append`
-                                  into `reuse[:0]` allocates); see the finding [C25-closure-buf-alias] for what
+                                  into `reuse[:0]` allocates); see the finding [C25-intersect-alias] for what
                                   storage reuse does when the buffer is large enough.
 -/
 namespace TmVerif.SetClosure
